@@ -11,7 +11,16 @@ cd "$WT"
 hdr="$(head -1 "$D/demo.rs")"
 dest="$(echo "$hdr" | sed -E 's#^.*copy to ([^ ;]+).*#\1#')"
 cmd="$(echo "$hdr" | sed -E 's#^[^;]*; *##')"
-crates="$(python3 -c "import json;print(' '.join('-p '+c for c in json.load(open('$D/meta.json'))['crates_tested']))")"
+crates="$(python3 -c "
+import json,re
+cs=json.load(open('$D/meta.json'))['crates_tested']
+names=[]
+for c in cs:
+    for t in re.findall(r'sophia[_a-z0-9]*', c):
+        if t not in names: names.append(t)
+if any('workspace' in c for c in cs): print('--workspace')
+else: print(' '.join('-p '+c for c in names))
+")"
 mkdir -p "$(dirname "$dest")"; cp "$D/demo.rs" "$dest"
 r1=FAIL; r3=FAIL; r4=FAIL
 if $cmd >/tmp/seed/confirm.log 2>&1; then r1=pass; fi
